@@ -162,13 +162,22 @@ def case_grid(mon: Monitor, rng: random.Random) -> None:
     coord_max = scale
     d = max(1e-9, 8 * math.ulp(coord_max))
     strict_band = d < 5e-9
-    for qn in range(4):
+    for qn in range(6):
         aligned = qn % 2 == 0
+        sliver = 0.0
         if aligned:
             i0, i1 = sorted(rng.sample(range(-W, W + 1), 2))
             j0, j1 = sorted(rng.sample(range(-W, W + 1), 2))
             xs = sorted([ox + i0 * tw, ox + i1 * tw])
             ys = sorted([oy + j0 * th, oy + j1 * th])
+            if qn >= 4:
+                # tile-aligned box grown (neighbours overlap by a sliver: they belong to the answer) or shrunk by an absolute amount in CRS units,
+                # well above both the 1e-8 contact rule and the float resolution of the coordinates, and far below a tile
+                cands = [v for v in (1e-5, 1e-4, 1e-3, 1e-2, 1.0) if v > 1000 * d and v < 1e-3 * min(tw, th)]
+                if not cands:
+                    continue
+                sliver = rng.choice(cands) * rng.choice([1, 1, -1])
+                xs, ys = [xs[0] - sliver, xs[1] + sliver], [ys[0] - sliver, ys[1] + sliver]
         else:
             xs = sorted([ox + rng.uniform(-W, W) * tw, ox + rng.uniform(-W, W) * tw])
             ys = sorted([oy + rng.uniform(-W, W) * th, oy + rng.uniform(-W, W) * th])
@@ -182,7 +191,7 @@ def case_grid(mon: Monitor, rng: random.Random) -> None:
             continue
         got = {tuple(i) for i, _ in res}
         ov = lambda b: (min(b[2], q.right) - max(b[0], q.left), min(b[3], q.top) - max(b[1], q.bottom))
-        lo, hi = (1e-8 + d, 1e-8 - d) if strict_band else (1e-6, -1e-6)
+        lo, hi = (1e-8 + d, 1e-8 - d) if strict_band else (max(1e-6, 100 * d), -max(1e-6, 100 * d))
         must = {i for i, b in boxes.items() if min(ov(b)) > lo}
         mustnot = {i for i, b in boxes.items() if min(ov(b)) < hi}
         okq = must <= got and not (got & mustnot) and all(max(abs(i[0]), abs(i[1])) <= W + 1 for i in got)
@@ -191,7 +200,7 @@ def case_grid(mon: Monitor, rng: random.Random) -> None:
         if e2 is None and okq:
             okq = {(ix, iy) for ix in range(ib[0], ib[2]) for iy in range(ib[1], ib[3])} == got
         mon.check(okq, "GridSpec.tiles", lambda: {**desc, "query": tuple(q.bbox), "aligned": aligned, "got": sorted(got), "missing": sorted(must - got),
-                  "extra": sorted(got & mustnot), "idx_bounds": ib}, key="bbox-query", cls=cls + ("|aligned" if aligned else "|random"), sig=hsig("Q", sig, tuple(q.bbox)))
+                  "extra": sorted(got & mustnot), "idx_bounds": ib}, key="bbox-query", cls=cls + ("|aligned-grown" if sliver > 0 else "|aligned-shrunk" if sliver < 0 else "|aligned" if aligned else "|random"), sig=hsig("Q", sig, tuple(q.bbox)))
 
     # rebuilt from a sample tile
     j = rng.choice(idxs)
